@@ -317,7 +317,7 @@ def run_case(case):
     os.environ['MPYC_MAXWORKERS'] = str(case.get('workers', 0))
     name, kind = case['op'], case['kind']
     rng = random.Random(case['seed'])
-    ALLOW0[0] = not case.get('mix32_64bit')   # zero-size arrays under --mix32-64bit: open finding np_zero_size_mix32_64bit
+    ALLOW0[0] = True   # zero-size arrays also under --mix32-64bit (repaired by repo commit fe2a0ec)
     plan = (OPS.get(name) or DIRECTED[name])['plan'](rng, kind, case.get('force'))
     m, no_prss = case['m'], case['no_prss']
     res = {'case': case, 'status': 'ok', 'lean': [], 'key': plan.get('key'), 'nontrivial': plan.get('nontrivial', True),
@@ -368,7 +368,7 @@ def run_case(case):
         sched = Scheduler(case['seed'], rng.choice(['random', 'lazynet', 'eagernet']))
     try:
         outs = SimNet(m, None, no_prss=no_prss, seed=case['seed'] & 0xffff, sched=sched, max_steps=3_000_000,
-                      mix32_64bit=bool(case.get('mix32_64bit'))).run(prog)
+                      mix32_64bit=bool(case.get('mix32_64bit')), sec_param=case.get('sec_param')).run(prog)
     except Deadlock as exc:
         return fail(res, 'deadlock', f'run does not terminate: {str(exc)[:300]}')
     except PartyError as exc:
